@@ -768,4 +768,119 @@ theorem TxF.rollback {l0 l : LocalDB} {dr dw : Bool} (h : TxF l0 dr dw l) :
   obtain ⟨a, b, c⟩ := rollback_inv l h.inv h.frame.intx
   exact ⟨a, b, by rw [c, h.frame.main, h.frame.rcache, h.dr, h.dw]⟩
 
+
+theorem execFee_err_ldb (env : Env) (st : St) (tx : Tx) (e : Err) (st1 : St)
+    (h : execFee env st tx = .err e st1) : st1.ldb = st.ldb := by
+  unfold execFee at h
+  split at h
+  · cases h
+  · simp only at h
+    split at h
+    · cases h
+    · split at h
+      · cases h
+      · injection h with _ h; subst h; rfl
+
+/-- idle = coherent and between transactions. -/
+def LIdle (l : LocalDB) : Prop := Inv l ∧ l.intx = false
+
+theorem TxF.commit_idle {l0 l : LocalDB} {dr dw : Bool} (h : TxF l0 dr dw l) : LIdle l.commit :=
+  commit_inv l h.inv h.frame.intx
+
+theorem TxF.rollback_idle {l0 l : LocalDB} {dr dw : Bool} (h : TxF l0 dr dw l) : LIdle l.rollback :=
+  ⟨(rollback_inv l h.inv h.frame.intx).1, (rollback_inv l h.inv h.frame.intx).2.1⟩
+
+def MembersRes.TxAll (l0 : LocalDB) : MembersRes → Prop
+  | .ok _ _ st => ∃ dr dw, TxF l0 dr dw st.ldb
+  | .failed _ _ _ st => ∃ dr dw, TxF l0 dr dw st.ldb
+  | .blockPanic => True
+
+theorem execMembers_txf (env : Env) (txs : List Tx) (st : St) (rs : List Receipt) (obs : List (List Obs))
+    (l0 : LocalDB) (dr dw : Bool) (h : TxF l0 dr dw st.ldb) : (execMembers env txs st rs obs).TxAll l0 := by
+  induction txs generalizing st rs obs dr dw with
+  | nil => exact ⟨dr, dw, h⟩
+  | cons tx txs ih =>
+    unfold execMembers
+    have hp := execTxOne_txf env st emptyPack tx l0 dr dw h
+    cases hr : execTxOne env st emptyPack tx with
+    | blockPanic => trivial
+    | failed r st2 o => rw [hr] at hp; exact ⟨_, _, hp⟩
+    | ok r st2 o => rw [hr] at hp; exact ih st2 _ _ _ _ hp
+
+/-- block execution keeps the LocalDB coherent and idle at every unit boundary. -/
+theorem execUnit_linv (env : Env) (hfr : env.forkExecRollback = true) (st : St) (h : LIdle st.ldb)
+    (u : TxUnit) (rs : List Receipt) (obs : List (List Obs)) (st' : St)
+    (hu : execUnit env st u = .done rs obs st') : LIdle st'.ldb := by
+  have hroll : ∀ s : St, (s.rollback env).ldb = s.ldb.rollback := fun s => by simp [St.rollback, hfr]
+  have hcomm : ∀ s : St, (s.commit env).ldb = s.ldb.commit := fun s => by simp [St.commit, hfr]
+  cases u with
+  | single tx =>
+    simp only [execUnit] at hu
+    unfold execTx at hu
+    split at hu
+    · injection hu with _ _ h3; subst h3; exact h
+    · cases hfe : execFee env st tx with
+      | panic => rw [hfe] at hu; cases hu
+      | err e st1 =>
+        rw [hfe] at hu
+        injection hu with _ _ h3; subst h3
+        rw [execFee_err_ldb env st tx e st1 hfe]; exact h
+      | ok feelog st1 =>
+        rw [hfe] at hu
+        simp only at hu
+        have hl := execFee_ldb env st tx feelog st1 hfe
+        have hb := begin_txf env hfr st1 (by rw [hl]; exact h.1) (by rw [hl]; exact h.2)
+        have t := execTxOne_txf env (st1.begin env) feelog tx _ _ _ hb
+        cases hA : execTxOne env (st1.begin env) feelog tx with
+        | blockPanic => rw [hA] at hu; cases hu
+        | failed r2 st2 o2 =>
+          rw [hA] at hu t
+          injection hu with _ _ h3; subst h3
+          rw [hroll]; exact TxF.rollback_idle t
+        | ok r2 st2 o2 =>
+          rw [hA] at hu t
+          injection hu with _ _ h3; subst h3
+          rw [hcomm]; exact TxF.commit_idle t
+  | group txs =>
+    simp only [execUnit] at hu
+    unfold execTxGroup at hu
+    cases txs with
+    | nil => simp only at hu; injection hu with _ _ h3; subst h3; exact h
+    | cons head members =>
+      simp only at hu
+      cases hfe : execFee env st head with
+      | panic => rw [hfe] at hu; cases hu
+      | err e st1 =>
+        rw [hfe] at hu
+        injection hu with _ _ h3; subst h3
+        rw [execFee_err_ldb env st head e st1 hfe]; exact h
+      | ok feelog st1 =>
+        rw [hfe] at hu
+        simp only at hu
+        have hl := execFee_ldb env st head feelog st1 hfe
+        have hb := begin_txf env hfr st1 (by rw [hl]; exact h.1) (by rw [hl]; exact h.2)
+        have t := execTxOne_txf env (st1.begin env) feelog head _ _ _ hb
+        cases hA : execTxOne env (st1.begin env) feelog head with
+        | blockPanic => rw [hA] at hu; cases hu
+        | failed r2 st2 o2 =>
+          rw [hA] at hu t
+          injection hu with _ _ h3; subst h3
+          rw [hroll]; exact TxF.rollback_idle t
+        | ok r2 st2 o2 =>
+          rw [hA] at hu t
+          simp only at hu
+          have tm := execMembers_txf env members st2 [] [] _ _ _ t
+          cases hM : execMembers env members st2 [] [] with
+          | blockPanic => rw [hM] at hu; cases hu
+          | failed nb r obsM st3 =>
+            rw [hM] at hu tm
+            obtain ⟨_, _, tm⟩ := tm
+            injection hu with _ _ h3; subst h3
+            rw [hroll]; exact TxF.rollback_idle tm
+          | ok rsM obsM st3 =>
+            rw [hM] at hu tm
+            obtain ⟨_, _, tm⟩ := tm
+            injection hu with _ _ h3; subst h3
+            rw [hcomm]; exact TxF.commit_idle tm
+
 end C11
